@@ -89,6 +89,127 @@ fn c15_precedence_table() {
 }
 
 // ------------------------------------------------------------------------------------------
+// C15: precedence climbing builds the tree the table implies
+// ------------------------------------------------------------------------------------------
+/// abstract operator: nothing but a precedence and an associativity
+#[derive(Clone, Copy)]
+pub struct AbsOp {
+    prec: usize,
+    right: bool,
+}
+impl Op for AbsOp {
+    fn precedence(&self) -> usize {
+        self.prec
+    }
+    fn associativity(&self) -> Associativity {
+        if self.right { Associativity::Right } else { Associativity::Left }
+    }
+}
+/// abstract expression: records the bracketing only (leaves lo..=hi, `code` = the shape)
+#[derive(Clone, Copy, PartialEq, Eq)]
+pub struct Br {
+    lo: u8,
+    hi: u8,
+    code: u64,
+}
+fn pair(a: u64, b: u64) -> u64 {
+    (a + b) * (a + b + 1) / 2 + b
+}
+fn node(l: Br, r: Br) -> Br {
+    Br { lo: l.lo, hi: r.hi, code: 1 + pair(l.code, r.code) }
+}
+impl Expr<AbsOp> for Br {
+    fn from_op(l: Self, _op: AbsOp, r: Self) -> Self {
+        node(l, r)
+    }
+}
+fn lf(i: u8) -> Br {
+    Br { lo: i, hi: i, code: 0 }
+}
+/// The tree the table implies for `t_lo op_lo t_{lo+1} ... op_{hi-1} t_hi`: split at the loosest
+/// operator - among equally loose ones the rightmost if they are left-associative, the leftmost
+/// if right-associative - and recurse on both sides ("inserting the parentheses the table
+/// implies never changes the program").
+fn spec_tree(ops: &[AbsOp], lo: usize, hi: usize) -> Br {
+    if lo == hi {
+        return lf(lo as u8);
+    }
+    let mut k = lo;
+    let mut j = lo + 1;
+    while j < hi {
+        if ops[j].prec < ops[k].prec || (ops[j].prec == ops[k].prec && !ops[k].right) {
+            k = j;
+        }
+        j += 1;
+    }
+    node(spec_tree(ops, lo, k), spec_tree(ops, k + 1, hi))
+}
+/// The real `prec_climb::climb` on every sequence of 1, 2 and 3 operators over three precedence
+/// levels with the given associativity per level (operators of equal precedence share their
+/// associativity, as in the real table).  `climb` only compares precedences and tests the
+/// associativity flag, so three levels cover every order type of three operators.  Sequences
+/// are enumerated concretely: `climb1` recurses from inside two nested loops, which makes
+/// bounded unwinding on symbolic operators exponential (DESIGN.md 2).
+fn climb_len3(right_of_level: [bool; 3]) {
+    let op = |p: usize| AbsOp { prec: p, right: right_of_level[p] };
+    let mut a = 0;
+    while a < 3 {
+        let o1 = [op(a)];
+        assert!(prec_climb::climb(lf(0), [(o1[0], lf(1))]) == spec_tree(&o1, 0, 1));
+        let mut b = 0;
+        while b < 3 {
+            let o2 = [op(a), op(b)];
+            assert!(prec_climb::climb(lf(0), [(o2[0], lf(1)), (o2[1], lf(2))]) == spec_tree(&o2, 0, 2));
+            let mut c = 0;
+            while c < 3 {
+                let o3 = [op(a), op(b), op(c)];
+                let got = prec_climb::climb(lf(0), [(o3[0], lf(1)), (o3[1], lf(2)), (o3[2], lf(3))]);
+                assert!(got == spec_tree(&o3, 0, 3));
+                assert!(got.lo == 0 && got.hi == 3);
+                c += 1;
+            }
+            b += 1;
+        }
+        a += 1;
+    }
+}
+/// the same for 4 operators (5 leaves)
+fn climb_len4(right_of_level: [bool; 3]) {
+    let op = |p: usize| AbsOp { prec: p, right: right_of_level[p] };
+    let mut n = 0;
+    while n < 81 {
+        let o = [op(n % 3), op(n / 3 % 3), op(n / 9 % 3), op(n / 27 % 3)];
+        let got = prec_climb::climb(lf(0), [(o[0], lf(1)), (o[1], lf(2)), (o[2], lf(3)), (o[3], lf(4))]);
+        assert!(got == spec_tree(&o, 0, 4));
+        n += 1;
+    }
+}
+macro_rules! climb_harnesses {
+    ($($n3:ident $n4:ident: $a:expr, $b:expr, $c:expr;)*) => {$(
+        #[kani::proof]
+        #[kani::unwind(6)]
+        fn $n3() {
+            climb_len3([$a, $b, $c])
+        }
+        #[kani::proof]
+        #[kani::unwind(83)]
+        fn $n4() {
+            climb_len4([$a, $b, $c])
+        }
+    )*};
+}
+climb_harnesses! {
+    c15_climb3_lll c15_climb4_lll: false, false, false;
+    c15_climb3_llr c15_climb4_llr: false, false, true;
+    c15_climb3_lrl c15_climb4_lrl: false, true, false;
+    c15_climb3_lrr c15_climb4_lrr: false, true, true;
+    c15_climb3_rll c15_climb4_rll: true, false, false;
+    c15_climb3_rlr c15_climb4_rlr: true, false, true;
+    c15_climb3_rrl c15_climb4_rrl: true, true, false;
+    c15_climb3_rrr c15_climb4_rrr: true, true, true;
+}
+
+// ------------------------------------------------------------------------------------------
 // C16 / C01: numbering of imported, global and local variables
 // ------------------------------------------------------------------------------------------
 use crate::compile::{Compiler, Term};
